@@ -36,13 +36,29 @@ void record(const std::string& outdir, std::uint64_t seed, int executions, int s
     Model m;
     tr.emit(bj::object{{"op", "reset"}});
     const bool heavy = (ex % 3 == 0);
+    // 'vanish' executions (lazy variants): a vertex with several stored cofaces leaves the map (contraction into
+    // another vertex, or removal of the vertex itself) and a burst of insertions on the OTHER vertices follows, with no
+    // read in between, until the size-triggered cleaning fires while the vanished vertex is still absent
+    const bool vanish = Model::lazy && (ex % 3 == 1);
+    const int gone = rnd(NV);
+    std::vector<bj::object> script;
+    if (vanish) {
+      std::vector<int> others;
+      for (int v = 0; v < NV; ++v) if (v != gone) others.push_back(v);
+      std::shuffle(others.begin(), others.end(), rng);
+      for (int k = 0; k < 3 + rnd(2); ++k) { std::vector<int> e{gone, others[k]}; std::sort(e.begin(), e.end()); script.push_back({{"op", "insert"}, {"s", jarr(e)}}); }
+      if (rnd(2)) script.push_back({{"op", "contract"}, {"x", gone}, {"y", others[5]}});
+      else script.push_back({{"op", "remove"}, {"s", jarr(std::vector<int>{gone})}});
+    }
     const int maxsz = 2 + rnd(4);  // simplices of at most 2..5 vertices in this execution
     // an execution is cut short when it has used its share of the step budget
     for (int stp = 0; stp < steps; ++stp) {
       bj::object act;
       // bursts of insertions with no membership read in between (insert_simplex does not evaluate the ALPHA
       // test, only reads and removals do): the stored simplices accumulate until the BETTA test fires
-      const bool burst = heavy && ((stp / 45) % 2 == 0);
+      const bool vburst = vanish && stp >= static_cast<int>(script.size()) && stp < 70;
+      const bool burst = (heavy && ((stp / 45) % 2 == 0)) || vburst;
+      if (vanish && stp < static_cast<int>(script.size())) act = script[stp];
       for (int tries = 0; tries < 100 && act.empty(); ++tries) {
         int c = burst ? 0 : rnd(100);
         int pi = heavy ? 76 : 42, pr = heavy ? 82 : 68, pc = heavy ? 90 : 78, pv = heavy ? 94 : 86;
@@ -51,7 +67,9 @@ void record(const std::string& outdir, std::uint64_t seed, int executions, int s
           //  checks/c16.py runs that continuation under AddressSanitizer instead)
           act = {{"op", "clear"}};
         } else if (c < pi) {
-          act = {{"op", "insert"}, {"s", jarr(random_subset(maxsz))}};
+          std::vector<int> s = random_subset(maxsz);
+          if (vburst && std::find(s.begin(), s.end(), gone) != s.end()) continue;   // the vanished vertex stays away
+          act = {{"op", "insert"}, {"s", jarr(s)}};
         } else if (c < pr) {
           // any vertex set: maximal, non-maximal or absent; biased towards members
           std::vector<int> s = random_subset(maxsz);
@@ -128,6 +146,107 @@ void record(const std::string& outdir, std::uint64_t seed, int executions, int s
   }
 }
 
+// Wide executions (lazy variants): 40 vertex labels, small simplices, no complete read-back (the state is followed by
+// the specification alone, reads are membership / all_facets_inside queries of small vertex sets).  A vertex with
+// several stored cofaces leaves the map (contraction, removal of the vertex) and insertions on fresh vertices follow
+// until the size-triggered cleaning fires: with 7 labels no execution can keep a vanished vertex at the top of the
+// cleaning queue that long.
+template <class Model>
+void record_wide(const std::string& outdir, std::uint64_t seed, int executions, int steps) {
+  std::string nm = Model::name();
+  std::replace(nm.begin(), nm.end(), '/', '_');
+  Trace tr(outdir + "/toplex_wide_" + nm + ".ndjson");
+  std::mt19937_64 rng(seed * 7368787 + std::hash<std::string>()(nm));
+  auto rnd = [&](int n) { return static_cast<int>(rng() % static_cast<std::uint64_t>(n)); };
+  using L = typename Model::L;
+  const int W = 60;
+  for (int ex = 0; ex < executions; ++ex) {
+    Model m;
+    tr.emit(bj::object{{"op", "reset"}});
+    std::vector<int> fresh;
+    for (int v = 0; v < W; ++v) fresh.push_back(v);
+    std::shuffle(fresh.begin(), fresh.end(), rng);
+    std::vector<int> used;
+    auto take = [&]() { int v = fresh.back(); fresh.pop_back(); used.push_back(v); return v; };
+    // every second execution starts with a script: two stars, one centre contracted into the other (the centre with
+    // no more stored cofaces than the other one disappears), then only disjoint fresh edges
+    std::vector<bj::object> script;
+    const bool scripted = (ex % 2 == 1);
+    if (scripted) {
+      int a = take(), b = take(), k = 3 + rnd(2);
+      std::vector<int> leaves;
+      for (int i = 0; i < k; ++i) leaves.push_back(take());
+      const bool shared = rnd(3) != 0;   // the two stars share their leaves: the contraction creates nothing new
+      for (int i = 0; i < k; ++i) { std::vector<int> e{a, leaves[i]}; std::sort(e.begin(), e.end()); script.push_back({{"op", "insert"}, {"s", jarr(e)}}); }
+      const bool tie = (ex % 4 == 1);    // equal numbers of stored cofaces, the vertex with the larger label disappears
+      for (int i = 0; i < k - (tie ? 0 : rnd(2)); ++i) { std::vector<int> e{b, shared || tie ? leaves[i] : take()}; std::sort(e.begin(), e.end()); script.push_back({{"op", "insert"}, {"s", jarr(e)}}); }
+      if (tie) script.push_back({{"op", "contract"}, {"x", std::max(a, b)}, {"y", std::min(a, b)}});
+      else if (rnd(2)) script.push_back({{"op", "contract"}, {"x", a}, {"y", b}}); else script.push_back({{"op", "contract"}, {"x", b}, {"y", a}});
+    }
+    for (int stp = 0; stp < steps && fresh.size() > 4; ++stp) {
+      bj::object act;
+      int c = rnd(100);
+      if (scripted && stp < static_cast<int>(script.size())) act = script[stp];
+      else if (scripted) {
+        std::vector<int> s{take(), take()};
+        std::sort(s.begin(), s.end());
+        act = {{"op", "insert"}, {"s", jarr(s)}};
+      } else if (used.size() < 2 || c < 55) {
+        // an edge or triangle on fresh vertices, sometimes attached to a used one
+        std::vector<int> s{take(), take()};
+        if (rnd(4) == 0 && fresh.size() > 4) s.push_back(take());
+        if (!used.empty() && rnd(3) == 0) s[0] = used[rnd(static_cast<int>(used.size()))];
+        std::sort(s.begin(), s.end());
+        s.erase(std::unique(s.begin(), s.end()), s.end());
+        act = {{"op", "insert"}, {"s", jarr(s)}};
+      } else if (c < 70) {
+        // a star: several edges at one used vertex
+        int a = used[rnd(static_cast<int>(used.size()))];
+        std::vector<int> s{a, take()};
+        std::sort(s.begin(), s.end());
+        act = {{"op", "insert"}, {"s", jarr(s)}};
+      } else if (c < 85) {
+        int x = used[rnd(static_cast<int>(used.size()))], y = used[rnd(static_cast<int>(used.size()))];
+        if (x == y) continue;
+        act = {{"op", "contract"}, {"x", x}, {"y", y}};
+      } else {
+        std::vector<int> s{used[rnd(static_cast<int>(used.size()))]};
+        if (rnd(2) && used.size() > 1) { s.push_back(used[rnd(static_cast<int>(used.size()))]); std::sort(s.begin(), s.end()); s.erase(std::unique(s.begin(), s.end()), s.end()); }
+        act = {{"op", "remove"}, {"s", jarr(s)}};
+      }
+      crash_ctx().where = nm + " wide " + bj::serialize(act);
+      bj::object got;
+      try { got = m.apply(act); } catch (const std::exception& e) { got["exception"] = e.what(); }
+      bj::object ev = act;
+      for (auto& p : got) ev[p.key()] = p.value();
+      if (got.contains("exception")) { tr.emit(ev); break; }
+      try {
+        // reads evaluate the ALPHA test and clean as they go (raising the threshold of the size-based cleaning): the
+        // scripted executions read nothing until their burst of insertions is over
+        const bool quiet = scripted && stp < static_cast<int>(script.size()) + 18;
+        if (!quiet && rnd(3) == 0) {
+          bj::array qs;
+          for (int qi = 0; qi < 3; ++qi) {
+            std::vector<int> s{used[rnd(static_cast<int>(used.size()))]};
+            if (rnd(2)) s.push_back(used[rnd(static_cast<int>(used.size()))]);
+            std::sort(s.begin(), s.end());
+            s.erase(std::unique(s.begin(), s.end()), s.end());
+            bj::object q{{"s", jarr(s)}, {"mem", m.tm.membership(L::lab(s))}};
+            if (s.size() >= 2) q["afi"] = m.tm.all_facets_inside(L::lab(s));
+            qs.push_back(q);
+          }
+          ev["q"] = qs;
+        }
+        tr.emit(ev);
+      } catch (const std::exception& e) {
+        tr.emit(ev);
+        tr.emit(bj::object{{"op", "read"}, {"exception", e.what()}});
+        break;
+      }
+    }
+  }
+}
+
 int main(int argc, char** argv) {
   if (argc < 5) { std::cerr << "usage: toplex_record outdir seed executions steps" << std::endl; return 2; }
   std::string outdir = argv[1];
@@ -139,5 +258,7 @@ int main(int argc, char** argv) {
   record<LazyModel<TLabelId>>(outdir, seed, executions, steps, true);
   record<EagerModel<TLabelBig>>(outdir, seed, std::max(2, executions / 4), steps, true);
   record<LazyModel<TLabelGap>>(outdir, seed, executions, steps, true);
+  record_wide<LazyModel<TLabelId>>(outdir, seed, 2 * executions, 60);
+  record_wide<LazyModel<TLabelGap>>(outdir, seed, 2 * executions, 60);
   return 0;
 }
